@@ -89,7 +89,8 @@ impl SNet {
         addrs.insert("a", "10.9.8.7:4321".parse().unwrap());
         addrs.insert("b", "10.9.8.8:4322".parse().unwrap());
         addrs.insert("P1", "192.0.2.1:1000".parse().unwrap());
-        addrs.insert("P2", "192.0.2.2:2000".parse().unwrap());
+        // (P2 is written as an IPv4-mapped IPv6 address: a destination like any other, and the label of its replies)
+        addrs.insert("P2", "[::ffff:192.0.2.2]:2000".parse().unwrap());
         addrs.insert("D", "192.0.2.53:53".parse().unwrap());
         let names = ["a", "b", "P1", "P2", "D"].iter().map(|n| (format!("\"{}\"", addrs[n]), quoted(n))).collect();
         SNet { socks_addr, relay_addr, relay: Some(relay), refuse, hold, names, addrs, src_of: HashMap::new(), addr_of: HashMap::new(), rx: 0 }
@@ -154,6 +155,11 @@ impl SNet {
             let a = self.name_of(&dst);
             ev("PeerGot", format!("\"a\":\"{}\",\"f\":{},\"id\":{},\"n\":{},\"via\":\"{}\"", a, f, id, body.len(), via));
         }
+    }
+
+    /// the largest payload a datagram to / from this peer may have behind its RFC 1928 header (10 octets IPv4, 22 IPv6)
+    fn max_for(&self, peer: &str) -> usize {
+        if self.addrs[peer].is_ipv6() { MAX_SOCKS - 12 } else { MAX_SOCKS }
     }
 
     fn forget(&mut self, src: &str) {
@@ -331,7 +337,7 @@ impl<'a> SRun<'a> {
         let (s, d) = S_FLOWS[f - 1];
         let id = self.next_id;
         self.next_id += 1;
-        let body = payload_sized('q', f, id, MAX_SOCKS);
+        let body = payload_sized('q', f, id, self.net.max_for(d));
         ev("ClientDgram", format!("\"f\":{},\"id\":{},\"n\":{}", f, id, body.len()));
         self.injected.push_back((f, id, body.len()));
         self.world.lock().unwrap().inq.push_back(VDatagram { source: self.net.addrs[s], destination: self.net.addrs[d], payload: body });
@@ -357,7 +363,7 @@ impl<'a> SRun<'a> {
                     (true, Some(to), true) => {
                         let id = self.next_id;
                         self.next_id += 1;
-                        let body = payload_sized('r', *f, id, MAX_SOCKS);
+                        let body = payload_sized('r', *f, id, self.net.max_for(dn));
                         ev("PeerReply", format!("\"f\":{},\"id\":{},\"n\":{}", f, id, body.len()));
                         self.world.lock().unwrap().replies.push((self.net.addrs[dn], self.net.addrs[sn], (*f, id, body.len())));
                         let mut pkt = vec![0u8, 0, 0];
